@@ -7,10 +7,10 @@ NEEDS_CLI = True
 NEEDS_PLAIN_CLI = True
 THOROUGH_ROUNDS = 3
 RULE = ("real binary `sign transaction` x {--allow-missing-relay-protection, not} x {--signature-only, full} x kinds x chain ids {absent, null, 0, 1, 2^64-1, "
-        "2^255-20, 2^255-19 (largest with 35+2c+1 < 2^256), 2^255-18, 2^255, 2^256-1}, plus library op sig.v <parity> <chain>; "
+        "2^255-20, 2^255-19 (largest with 35+2c+1 < 2^256), 2^255-18, 2^255, 2^256-1}, plus library op sig.v <parity> <chain> for every bit boundary 2^k-1, 2^k, 2^k+1 (k = 0..255) and signed legacy transactions at 20 (thorough: all) of them; "
         "non-trivial = distinct (kind, chain id, flags); judge decodes the output strictly, checks v = 35+2c+parity as an integer (27/28 without chain id, "
         "yParity for typed), that the signature verifies and recovers to the signer over keccak256 of the EIP-155/2718 payload containing c, and the guard")
-EXHAUSTIVE_SWEEPS = {"quick": ["10 chain-id classes x 3 kinds x 2 flags x 2 output modes"], "thorough": ["10 chain-id classes x 3 kinds x 2 flags x 2 output modes"]}
+EXHAUSTIVE_SWEEPS = {"quick": ["10 chain-id classes x 3 kinds x 2 flags x 2 output modes", "sig.v at 2^k-1, 2^k, 2^k+1 for k = 0..255 x both parities"], "thorough": ["10 chain-id classes x 3 kinds x 2 flags x 2 output modes", "sig.v at 2^k-1, 2^k, 2^k+1 for k = 0..255 x both parities"]}
 CHAINS = ["absent", "null", 0, 1, 5, 2 ** 64 - 1, 2 ** 255 - 20, 2 ** 255 - 19, 2 ** 255 - 18, 2 ** 255, 2 ** 256 - 1]
 
 
@@ -45,6 +45,22 @@ def gen(rng, tier):
     for par in (0, 1):
         for c in ["none"] + ["%064x" % x for x in [0, 1, 2 ** 64 - 1, 2 ** 255 - 20, 2 ** 255 - 19, 2 ** 255 - 18, 2 ** 255, 2 ** 256 - 1]]:
             cases.append(Case("sig.v %d %s" % (par, c), tags=("sig.v",)))
+    # every bit boundary of the chain id: 2^k-1, 2^k, 2^k+1 for k = 0..255 (a narrower intermediate type, a shift that drops
+    # the top bit, a carry that is lost between words all show at one of these); beyond 2^255-19 the statement wants an error
+    seen = set()
+    for k in range(0, 256):
+        for c in (2 ** k - 1, 2 ** k, 2 ** k + 1, 2 ** k + 2 ** (k // 2)):
+            if c in seen or c >= 2 ** 256:
+                continue
+            seen.add(c)
+            for par in (0, 1):
+                cases.append(Case("sig.v %d %064x" % (par, c), tags=("sig.v", "bit-boundary")))
+    mn = hx(" ".join(bip39.rand_phrase(rng, 12)))
+    ks = range(1, 255) if tier == "thorough" else [7, 8, 15, 16, 31, 32, 33, 62, 63, 64, 65, 96, 126, 127, 128, 129, 191, 192, 253, 254]
+    for k in ks:
+        for c in (2 ** k - 1, 2 ** k, 2 ** k + rng.randrange(2 ** k)):
+            j, _ = txgen.rand_tx(rng, kind="legacy", chain=c, spellings=["dec-str", "hex-str"])
+            cases.append(Case("cli.sign_tx %s - default %s 0 0" % (mn, hx(j)), runner="cli", tags=("bit-boundary", "kind:legacy"), meta={"via": {}, "via_file": False}))
     return cases
 
 
